@@ -27,7 +27,7 @@ func (c20) Cases(t fw.Tier) int {
 func (c20) Rule() string {
 	return "each case builds a Schema tree that populates subschema-bearing fields found by the harness's OWN reflection over Schema's exported fields by Go type (*Schema, []*Schema, map[string]*Schema; incl. the draft-07 ones), depth <= 4, with nil and empty containers, " +
 		"in every fresh worker process the very first CloneSchemas calls are issued by 8 goroutines at once (cold start) and each clone must be disjoint from the original; then per case: Marshal(clone) == Marshal(orig) bytewise; the sets of *Schema addresses of both trees (own reflection walk) are disjoint; a parent holding both still resolves whenever a parent holding the original alone does; " +
-		"and a mutation sweep in both directions: every exported field of every Schema object of one tree is overwritten with a sentinel (scalar fields replaced, every schema slice element and schema map entry reassigned, new entries added) and the other tree's deep snapshot (values + pointer graph) and marshaled bytes must not change. " +
+		"and a mutation sweep in both directions: the observed tree first appends an element of its own to every schema slice (slices are generated with and without spare capacity), then every exported field of every Schema object of one tree is overwritten with a sentinel (scalar fields replaced, every schema slice element and schema map entry reassigned, new entries added) and the other tree's deep snapshot (values + pointer graph) and marshaled bytes must not change. " +
 		"The run is inconclusive if some subschema-bearing field was never populated. Non-trivial: >=3 distinct subschema-bearing fields populated with one at depth >= 2; distinct by the set of (field, depth) pairs."
 }
 func (c20) Assumptions() []string {
@@ -212,6 +212,9 @@ func (p c20) Run(c *fw.Case) {
 			b = clone
 			a, b = b, a
 		}
+		// first extend every schema slice of the OBSERVED tree by one element (its own appends must stay its own, even
+		// when an empty slice with spare capacity was "cloned"), then overwrite and extend the other tree
+		appendAll(a, map[*jsonschema.Schema]bool{})
 		before := snap.Of(a)
 		beforeBytes, _, _ := marshalSchema(c, a, "before sweep")
 		overwriteAll(b, map[*jsonschema.Schema]bool{})
@@ -252,5 +255,35 @@ func (c20) Finalize(a *fw.Agg, t fw.Tier) {
 	a.Extra["subschema_fields_found_by_reflection"] = len(single) + len(slice) + len(maps)
 	if len(missing) > 0 {
 		a.AddInconclusive("subschema-bearing fields never populated: " + strings.Join(missing, ","))
+	}
+}
+
+// appendAll appends one marker schema to every schema slice (also empty, non-nil ones) of the tree.
+func appendAll(s *jsonschema.Schema, seen map[*jsonschema.Schema]bool) {
+	if s == nil || seen[s] {
+		return
+	}
+	seen[s] = true
+	v := reflect.ValueOf(s).Elem()
+	for i := 0; i < v.NumField(); i++ {
+		if !v.Type().Field(i).IsExported() {
+			continue
+		}
+		fv := v.Field(i)
+		switch x := fv.Interface().(type) {
+		case *jsonschema.Schema:
+			appendAll(x, seen)
+		case []*jsonschema.Schema:
+			for _, k := range x {
+				appendAll(k, seen)
+			}
+			if x != nil {
+				fv.Set(reflect.ValueOf(append(x, &jsonschema.Schema{Title: "OWN-APPEND"})))
+			}
+		case map[string]*jsonschema.Schema:
+			for _, k := range x {
+				appendAll(k, seen)
+			}
+		}
 	}
 }
